@@ -227,7 +227,19 @@ func (n *Namespace) add(c *serverConn, auth json.RawMessage) (*serverSocket, err
 	return socket, n.doConnect(socket)
 }
 
+var errConnectionClosed = fmt.Errorf("sio: connection was closed while the socket was connecting to the namespace")
+
 func (n *Namespace) doConnect(socket *serverSocket) error {
+	// The connection may have been closed while the middlewares were running. A socket admitted after
+	// that would never be closed: it would stay in the namespace and in its rooms forever, and its disconnect
+	// handlers would never run. `closedMu` is held until the socket is registered and marked as connected,
+	// so that a close happening right now finds a socket it can close properly.
+	socket.conn.closedMu.Lock()
+	defer socket.conn.closedMu.Unlock()
+	if socket.conn.closed {
+		return errConnectionClosed
+	}
+
 	n.sockets.set(socket)
 
 	// The connection must know the socket before the client is told that it is connected
